@@ -97,6 +97,28 @@ try:
             if got2 != got: viol.append(dict(case, what='result depends on cwd/spelling: %s from %s vs %s from %s' % (got, case['cwd'], got2, '/'.join(cwd2))))
             if len(samples) < 3: samples.append(case)
             rows.append('(%s, %d, [%s], %s, %s)' % (fs, k, '; '.join(q(x) for x in bt + cwd), q(entry), got if not got.startswith('Other') else 'OSError'))
+    # ---- directed (eighth round): `..` across a symlinked directory and through a directory that does not exist — the operating system decides,
+    # never a lexical normalisation (oracle only: the Coq model has no symlinks)
+    sb = os.path.join(T, 'sym'); os.makedirs(os.path.join(sb, 'real', 'deep')); os.makedirs(os.path.join(sb, 'real', 'lib')); os.makedirs(os.path.join(sb, 'lib')); os.makedirs(os.path.join(sb, 'other'))
+    W = lambda rel_, txt: open(os.path.join(sb, rel_), 'w').write(txt)
+    W('real/deep/a.nix', '{ id = "id0"; next = import ../b.nix; }\n'); W('real/b.nix', '{ id = "id1"; next = import ./lib/d.nix; }\n')
+    W('real/lib/d.nix', '{ id = "id2"; next = import ./nope/../d.nix; }\n'); W('b.nix', '{ id = "id91"; next = import ./lib/d.nix; }\n'); W('lib/d.nix', '{ id = "id92"; next = import ./d.nix; }\n')
+    W('real/lib/e.nix', '{ id = "id3"; next = import ./d.nix/../d.nix; }\n')
+    os.symlink(os.path.join(sb, 'real', 'deep'), os.path.join(sb, 'link'))
+    def follow(cwd_, entry_, k):
+        os.chdir(os.path.join(sb, cwd_))
+        try:
+            v = parse_file(entry_)
+            for _ in range(k): v = v['next']
+            r = v['id']; return 'Reached %d' % int(str(getattr(r, 'value', r)).strip('"')[2:])
+        except OSError: return 'OSError'
+        except Exception as e: return 'Other:' + type(e).__name__
+        finally: os.chdir(home)
+    for cwd_, entry_, k, want in [('', 'link/a.nix', 1, 'Reached 1'), ('', 'link/a.nix', 2, 'Reached 2'), ('', 'link/a.nix', 3, 'OSError'), ('other', '../link/a.nix', 2, 'Reached 2'),
+                                  ('', os.path.join(sb, 'link', 'a.nix'), 1, 'Reached 1'), ('', 'real/deep/a.nix', 2, 'Reached 2'), ('real/lib', 'e.nix', 1, 'OSError'), ('', 'real/lib/d.nix', 1, 'OSError')]:
+        got = follow(cwd_, entry_, k); kk = 'symlink-dotdot/' + got.split()[0]; keys[kk] = keys.get(kk, 0) + 1
+        if got != want: viol.append({'layout': 'sym: link -> real/deep; real/deep/a.nix imports ../b.nix; real/b.nix imports ./lib/d.nix; real/lib/d.nix imports ./nope/../d.nix; decoys b.nix, lib/d.nix beside link', 'cwd': cwd_, 'entry': entry_.replace(sb, '<T>/sym'), 'hops': k, 'got': got, 'expected': want,
+                                     'what': 'import chain gives %s, the operating system\'s resolution relative to the importing file gives %s' % (got, want)})
 finally:
     os.chdir(home); shutil.rmtree(T, ignore_errors=True)
 HDR = ('From Coq Require Import List Ascii String Bool Arith. Import ListNotations. Open Scope string_scope.\n'
